@@ -14,10 +14,10 @@ CFG = {"fix_gap": False, "fix_clip": False, "fix_eqend": False, "fix_encl": Fals
 THEOREMS = [
     # the tree as it is (cfg asis): refutations + what still holds, and under which guard
     "C40_entries_sorted_disjoint_refuted", "C40_get_eq_naive_refuted", "C40_get_eq_naive_aliasing_refuted",
-    "C40_insert_disjoint_flag_refuted", "C40_intersect_partial",
-    "C40_nesting_sets_laminar_refuted", "C40_nesting_partition_refuted", "C40_nesting_partial",
+    "C40_insert_disjoint_flag_refuted", "C40_intersect_partial", "C40_intersect_guarded", "C40_insert_panics_iff",
     # the repaired code (cfg repaired): the full property
     "C40_entries_sorted_disjoint_repaired", "C40_get_eq_naive_repaired", "C40_insert_disjoint_flag_repaired",
+    "C40_nesting_sets_laminar_refuted", "C40_nesting_partition_refuted", "C40_nesting_partial", "C40_nesting_guarded",
     "C40_nesting_sets_laminar_repaired", "C40_nesting_partition_repaired",
 ]
 AXIOMS_OK = []
@@ -182,7 +182,7 @@ def run(ctx):
         for k in range(0, n + 1):
             for t in itertools.product(ivs, repeat=k):
                 icases.append((list(t), -1, hi + 1))
-    nplans = ctx.budget([(4, 3), (3, 4)], [(5, 4), (4, 5)])
+    nplans = ctx.budget([(3, 3), (2, 4)], [(5, 4), (4, 5)])
     for hi, n in nplans:
         ivs = intervals(0, hi)
         for k in range(0, n + 1):
@@ -202,11 +202,11 @@ def run(ctx):
                 a, b = b + 1, a
             ops.append((a, b))
         return ops
-    for _ in range(ctx.budget(1500, 60000)):
+    for _ in range(ctx.budget(800, 60000)):
         span = rng.choice([2, 3, 5, 8, 12, 20])
         ops = rand_ops(rng.choice([6, 10, 16, 30]), span, True)
         icases.append((ops, -1, span + 3))
-    for _ in range(ctx.budget(1500, 60000)):
+    for _ in range(ctx.budget(800, 60000)):
         span = rng.choice([3, 5, 8, 12, 20])
         ncases.append(rand_ops(rng.choice([5, 8, 12, 24]), span, False))
     ctx.rule = ("Intersect: every insertion sequence of length <= n over all intervals with endpoints 0..hi for (hi,n) in %s, a corpus of "
